@@ -155,8 +155,9 @@ E4RULE = 'Cases are rapid-generated (request history x fault plan x configuratio
 ENUMRULE = (" Bounded-exhaustive leg (CutEnum): for fixed small workloads the tree of cut placements is explored depth first - a plan "
             "is a list of cuts, the i-th on connection i, before or after the j-th client packet (j=1 is CONNECT, so 'after 1' loses the "
             "CONNACK); children extend a plan at every packet position of the connection on which the parent run completed, so every "
-            "reachable placement of up to D cuts at packet boundaries is run exactly once (D = 2..3 quick, 3..4 thorough; plans per "
-            "workload and depth are in extra.enum_*), under the same oracle. Non-trivial there = at least one cut fired.")
+            "reachable placement of up to D cuts at packet boundaries is run exactly once (D = 2..3 quick, 3..5 thorough; in some trees "
+            "every level also branches into 'this attempt fails to dial' and 'this CONNECT is refused'; plans per workload and depth are "
+            "in extra.enum_*), under the same oracle. Non-trivial there = at least one fault fired.")
 
 prop("C01", "no accepted QoS>=1 publish / subscribe / unsubscribe is lost", "fault_enumeration",
      E4RULE + "C01: 1..14 submits (QoS0/1/2 publishes, subscribe, unsubscribe with unique marker filters) placed before Connect, while "
